@@ -46,8 +46,9 @@ def allowed_parse_error(e):
     if monitors.is_parse_error(e) or monitors.is_library_error(e):
         return True
     if type(e) is SyntaxError:
+        # the column-less-table rule raises the built-in SyntaxError from a parse action of the library
         cls, where = monitors.classify_exc(e)
-        return 'definitions/table.py' in where or 'has no columns' in str(e)
+        return where != '-'
     return False
 
 
